@@ -427,6 +427,11 @@ func (m *Module) declaredFunctionIndexes() (ret map[Index]struct{}, err error) {
 	for i := range m.ElementSection {
 		elem := &m.ElementSection[i]
 		for _, index := range elem.Init {
+			if _, isGlobal := unwrapElementInitGlobalReference(index); isGlobal {
+				// An item written as `global.get g` is stored as g with a tag bit: it is not a function index,
+				// so it must not make `ref.func (g | tag)` look declared.
+				continue
+			}
 			if index != ElementInitNullReference {
 				ret[index] = struct{}{}
 			}
